@@ -66,10 +66,10 @@ Hypothesis Hs : Solution courses parts K a.
 Hypothesis HKfix : forall c, c < nc -> K c = true -> c_fixed (crs c) = false.
 Hypothesis Hc : Covers courses nd K.
 
-Theorem branch_covers cs s : run courses parts pick_real nd = Val (Infeasible cs s) -> exists child, In child cs /\ Covers courses child K.
+Theorem branch_covers cs s : run courses parts no_rooms pick_real nd = Val (Infeasible cs s) -> exists child, In child cs /\ Covers courses child K.
 Proof.
-  intros Hrun. destruct (run_node_cases courses parts pick_real nd _ Hrun) as [Hn|NR]; [discriminate|].
-  destruct NR as [sx sy mm ms Hsyeq Hg Hsxeq Hsx Hsy Hguard Hpm Hw Hopt Hres]. cbn zeta in Hres.
+  intros Hrun. destruct (run_node_cases courses parts no_rooms pick_real nd _ Hrun) as [Hn|NR]; [discriminate|].
+  destruct NR as [sx sy mm ms Hsyeq Hg Hsxeq Hsx Hsy Hguard Hpm Hw Hopt Hres]. cbn zeta in Hres. cbn [no_rooms] in Hres.
   set (a' := add_instr courses nd (amatch courses parts sy mm)) in *.
   (* no wrong-course participant *)
   assert (Hnw : existsb (wrong_course parts sx a') (seq 0 np) = false).
